@@ -13,13 +13,13 @@ array, `S<i>` struct/union ref, `E<i>` enum ref, `F<nargs>:<flags> res arg…` f
   dec4 hex                     → ok op arg | err Short        cdl_opcode + GETOP/GETARG
   const v                      → ok v'                        ffiobj_init + realize_global_int
   encglobal op arg name value  → ok <hex> value               GlobalExpr.as_python_expr
-  global hex value             → ok op arg name (value|-)     ffiobj_init (+ realize_global_int)
+  global hex value             → ok op arg name (value | - <type of arg>)   ffiobj_init (+ realize_global_int)
   encstruct ti flags name [| op arg bits name]…  → ok hex hex…   StructUnionExpr.as_python_expr
-  struct nf hex hex…           → ok ti flags name first num [| op arg size name]…
+  struct nf hex hex…           → ok ti flags name first num <type at ti> [| op arg size name <type of arg>]…
   encenum ti size signed name e…  → ok hex                    EnumExpr.as_python_expr
   enum hex                     → ok ti prim name e…
   enctypename ti name          → ok hex
-  typename hex                 → ok ti name
+  typename hex                 → ok ti name <type at ti, realize_c_type>
   types hex                    → ok n        installs the decoded `_types` table
   realize i                    → ok <type> | err <kind>       realize_c_type_or_func on the table
   emit t ; t ; …               → ok hex i,i,…   collect_type_table: bytes and the index of each type
@@ -88,6 +88,11 @@ def showErr : RErr → String
   | .fnType => "FnType" | .badAbi => "BadAbi" | .negLength => "NegLength"
   | .notImpl => "NotImpl" | .unmodelled => "Unmodelled"
 
+def showR (r : Except RErr Ty) : String :=
+  match r with
+  | .ok t => showTy t
+  | .error e => "err " ++ showErr e
+
 /-- `| a b c d | …` groups of four words. -/
 def fieldGroups : List String → Option (List FieldRec)
   | [] => some []
@@ -127,7 +132,8 @@ def step (tbl : List Int) : List String → List Int × String
         | none => "err Short"
         | some c => match viewGlobal c with
           | none => "err FFIError"
-          | some g => s!"ok {g.op} {g.arg} {bytesHex g.name} " ++ (if c.hasInt then s!"{g.value}" else "-"))
+          | some g => s!"ok {g.op} {g.arg} {bytesHex g.name} " ++
+              (if c.hasInt then s!"{g.value}" else "- " ++ showR (realizeC tbl g.arg)))
     | _, _ => (tbl, "bad-op")
   | "encstruct" :: ti :: fl :: name :: rest =>
     match int? ti, int? fl, hexBytes? name, fieldGroups rest with
@@ -142,9 +148,11 @@ def step (tbl : List Int) : List String → List Int × String
       (tbl, match decodeStruct nf bs with
         | none => "err Short"
         | some (c, fs) =>
-          s!"ok {c.typeIndex} {c.flags} {bytesHex c.name} {c.firstField} {c.numFields}" ++
+          s!"ok {c.typeIndex} {c.flags} {bytesHex c.name} {c.firstField} {c.numFields} " ++
+            (showR (realizeC tbl c.typeIndex)).replace " " "_" ++
             String.join (fs.map fun f =>
-              s!" | {getOp f.typeOp} {getArg f.typeOp} {f.size} {bytesHex f.name}"))
+              s!" | {getOp f.typeOp} {getArg f.typeOp} {f.size} {bytesHex f.name} " ++
+                showR (realizeC tbl (getArg f.typeOp))))
     | _, _ => (tbl, "bad-op")
   | "encenum" :: ti :: size :: signed :: name :: es =>
     match int? ti, nat? size, nat? signed, hexBytes? name, es.mapM hexBytes? with
@@ -168,7 +176,7 @@ def step (tbl : List Int) : List String → List Int × String
   | ["typename", h] =>
     match hexBytes? h with
     | some b => (tbl, match decodeTypename b with
-        | some t => s!"ok {t.typeIndex} {bytesHex t.name}"
+        | some t => s!"ok {t.typeIndex} {bytesHex t.name} " ++ showR (noFn (realizeC tbl t.typeIndex))
         | none => "err Short")
     | none => (tbl, "bad-op")
   | ["types", h] =>
@@ -182,7 +190,7 @@ def step (tbl : List Int) : List String → List Int × String
         | .error e => "err " ++ showErr e)
     | none => (tbl, "bad-op")
   | "emit" :: toks =>
-    match (splitSemi toks).mapM parseWhole with
+    match (if toks.isEmpty then [] else splitSemi toks).mapM parseWhole with
     | some S =>
       (tbl, match emitWords S with
         | none => "err Emit"
